@@ -41,3 +41,15 @@ Theorem C18_sensitive_refuted :
   simb T1 T2 [(0, 0); (2, 1)] [] [7] = true /\
   fst (run T1 o 3 5 0 false 0) <> fst (run T2 o 3 5 0 false 0).
 Proof. exact C18_sensitive_refuted_pf. Qed.
+
+(* non-vacuity: a common table with a quoted-identifier alternative (terminal 7, in DT) and a dialect table without it, whose identifier terminal
+   (9) differs from the common one (8) but agrees with it on this input (EQN); on an input where terminal 7 matches nowhere both accept alike. *)
+Example C18_premises_satisfiable :
+  let T1 := [Build_entry (NAlt [(1, false); (2, false)]) VNone; Build_entry (NTerm 7) VNone; Build_entry (NTerm 8) VNone] in
+  let T2 := [Build_entry (NAlt [(1, false)]) VNone; Build_entry (NTerm 9) VNone] in
+  let o := fun q => match q with QT 8 0 => 4 | QT 9 0 => 4 | QS _ p => p | _ => 0 end in
+  simb T1 T2 [(0, 0); (2, 1)] [(2, 1)] [7] = true /\
+  (forall p, o (QT 7 p) = 0) /\
+  fst (run T1 o 3 5 2 false 0) = fst (run T2 o 3 5 1 false 0) /\
+  fst (parse_all T1 o 3 5 0 0) = Ok 3 false /\ fst (parse_all T2 o 3 5 0 0) = Ok 3 false.
+Proof. vm_compute. repeat split; auto. Qed.
